@@ -944,9 +944,20 @@ MUTANTS = [
                                 false,
                             ),""",
          expect="C01.k/pedantic-repair/inherited-not-constant"),
-    dict(id="C01.k-backward-projection-recompute-not-pedantic", prop="C01", file=CG + "slow_path.rs",
-         old="            CallerKind::BackwardProjectionPropagation => true,", new="            CallerKind::BackwardProjectionPropagation => false,",
+    dict(id="C01.k-backward-projection-recompute-not-pedantic", prop="C01", file=CG + "caller.rs",
+         old="            CallerKind::Query(q) => q.pedantic_repair(),\n            CallerKind::BackwardProjectionPropagation => true,\n",
+         new="            CallerKind::Query(q) => q.pedantic_repair(),\n            CallerKind::BackwardProjectionPropagation => false,\n",
          expect="C01.k/pedantic-repair/inherited-not-constant"),
+    dict(id="C03.f-D19-reintroduced-marker-only-at-its-own-epoch", prop="C03", file=CG + "fast_path.rs",
+         old="        ) && self.pending_backward_projection().await.is_some()\n", new="        ) && self.pending_backward_projection().await.is_some_and(|x| x.0 == caller.timestamp())\n",
+         expect="C03.f/pending-backward-projection/both-sites-test-presence-and-agree"),
+    dict(id="C01.u-D19-reintroduced-marker-only-at-its-own-epoch", prop="C01", file=CG + "fast_path.rs",
+         old="        ) && self.pending_backward_projection().await.is_some()\n", new="        ) && self.pending_backward_projection().await.is_some_and(|x| x.0 == caller.timestamp())\n",
+         expect="C01.u/fast_path/pending-backward-projection-is-honoured-in-later-epochs"),
+    dict(id="C03.d-backward-projection-forces-re-execution-again", prop="C03", file=CG + "repair.rs",
+         old="        let recompute = self\n            .recompute_decision_based_on_forward_edges(",
+         new="        if matches!(caller_information.kind(), CallerKind::BackwardProjectionPropagation) {\n            return Some((lock_guard, self));\n        }\n\n        let recompute = self\n            .recompute_decision_based_on_forward_edges(",
+         expect="C03.d/should_recompute_query/recompute-only-when-needed"),
     dict(id="C01.k-recompute-keeps-dirty-edges", prop="C01", file=CG + "slow_path.rs",
          old="""                execute_query_for == ExecuteQueryFor::RecomputeQuery,
                 continuing_tx,""", new="""                false,
